@@ -6,7 +6,7 @@
    deletion; allocation failures are not modelled. *)
 From Coq Require Import Arith List Bool.
 Import ListNotations.
-From Cffi Require Import C36.Model C36.Proofs.
+From Cffi Require Import C36.Model C36.Gen C36.Proofs C36.Proofs2.
 
 (* none of the code's Py_FatalError conditions fires, no callback runs on a destroyed thread state,
    no Clear/Delete is applied to a destroyed one, the zombie list never links a freed canary *)
@@ -71,6 +71,54 @@ Theorem C36_no_leak : forall s t ts, reach s -> thr s t = Exited -> gts s t = So
   dropped s ts = true.
 Proof. exact no_leak. Qed.
 Print Assumptions C36_no_leak.
+
+(* the zombie list is bounded by the exited-but-unswept threads: two linked canaries never belong
+   to the same thread (each zombie is the canary of a distinct exited thread, by C36_zombies_ok) *)
+Theorem C36_zombies_distinct_threads : forall s c1 c2 ts1 ts2 o k1 k2, reach s ->
+  In c1 (zombies s) -> In c2 (zombies s) ->
+  tss s ts1 = TsLive o k1 (Some c1) -> tss s ts2 = TsLive o k2 (Some c2) -> c1 = c2.
+Proof. exact zombies_distinct_threads. Qed.
+Print Assumptions C36_zombies_distinct_threads.
+
+(* the next thread_canary_register of ANY thread (a first callback run to completion) empties it *)
+Theorem C36_registration_empties : forall s t s', gts s t = None -> mstep s (MCb t) = Some s' ->
+  zombies s' = [] /\ reg s' = None.
+Proof. exact registration_empties. Qed.
+Print Assumptions C36_registration_empties.
+
+(* ... and with an empty list and no sweep in progress every exited thread's state is destroyed
+   (or had lost its canary while alive).  Residual leak, stated explicitly: the states of threads that
+   exited after the LAST registration stay queued (C36_no_leak, second disjunct) until another
+   foreign thread registers or the interpreter finalizes; nothing else frees them. *)
+Theorem C36_swept_means_destroyed : forall s t ts, reach s -> zombies s = [] -> reg s = None ->
+  thr s t = Exited -> gts s t = Some ts -> tss s ts = TsDeleted \/ dropped s ts = true.
+Proof. exact swept_means_destroyed. Qed.
+Print Assumptions C36_swept_means_destroyed.
+
+(* ---- the list at pointer level: the regenerated code of thread_canary_make_zombie and
+   _thread_canary_detach_with_lock (C36/Gen.v) on a doubly linked ring through cffi_zombie_head
+   (`ring h l`: following zombie_next from the head visits exactly l and returns, zombie_prev visits
+   rev l, unlinked canaries have NULL fields) implements the sequence operations of the model *)
+Theorem C36_ring_empty : ring heap0 [].
+Proof. exact ring_empty. Qed.
+Theorem C36_make_zombie_appends : forall h l c, ring h l -> ~ In c (0 :: l) ->
+  exists e' h', exec_p gen_make_zombie (env0 c) h = Some (e', h') /\ ring h' (l ++ [c]).
+Proof. exact make_zombie_appends. Qed.
+Print Assumptions C36_make_zombie_appends.
+Theorem C36_detach_removes : forall h l c, ring h l -> In c l ->
+  exists e' h', exec_p gen_detach (env0 c) h = Some (e', h') /\ ring h' (remove Nat.eq_dec c l).
+Proof. exact detach_removes. Qed.
+Print Assumptions C36_detach_removes.
+(* what the sweep reads: head.next is the first element; it is the head itself iff the list is empty *)
+Theorem C36_ring_head : forall h l, ring h l -> hnext h 0 = Some (hd 0 l) /\ (hd 0 l = 0 <-> l = []).
+Proof. exact ring_head. Qed.
+Print Assumptions C36_ring_head.
+(* the test `ob->zombie_next != NULL` of dealloc / make_zombie means "linked" *)
+Theorem C36_ring_linked_iff : forall h l c, ring h l -> c <> 0 -> (hnext h c <> None <-> In c l).
+Proof. exact ring_linked_iff. Qed.
+Print Assumptions C36_ring_linked_iff.
+Theorem C36_make_zombie_guarded : gen_make_zombie_guarded = true.
+Proof. reflexivity. Qed.
 
 Theorem C36_runner_sound : forall s e s', reach s -> mstep s e = Some s' -> reach s'.
 Proof. exact mstep_reach. Qed.
